@@ -2,17 +2,21 @@
 ID = "C20"
 LEAN_TARGETS = ["Rsp.Props.C20", "Rsp.Tie.C20"]
 THEOREMS = ["Rsp.Tie.C20.dynRealmBad_tie", "Rsp.Props.C20.dynRealmOf_some_iff", "Rsp.Props.C20.dynRealmOf_sanitised", "Rsp.Props.C20.exec_argv", "Rsp.Props.C20.dns_names",
-            "Rsp.Props.C20.no_realm_no_lookup", "Rsp.Props.C20.afterLastAt_some", "Rsp.Props.C20.afterLastAt_none"]
+            "Rsp.Props.C20.no_realm_no_lookup", "Rsp.Props.C20.afterLastAt_some", "Rsp.Props.C20.afterLastAt_none",
+            "Rsp.Props.C20.refind_restart", "Rsp.Props.C20.refind_sanitised", "Rsp.Props.C20.refind_restart_last_realm"]
 RULE = ("the real adddynamicrealmserver -> addserver -> clientwr thread -> dynamicconfig path, with execlp and the resolver replaced by recorders, on User-Names whose realm part holds "
         "EVERY octet value 1..255 at the first, a middle and the last position (exhaustive), plus lengths 0..253, zero/one/many '@', shell metacharacters, whitespace, leading '-', "
         "non-ASCII, embedded NUL; commands of the external, naptr: and srv: forms (with and without trailing dot, mixed case). non-trivial = realm part contains a rejected octet or a "
-        "boundary shape")
+        "boundary shape. The restart path: the real findserver() on a realm with a dynamic server and a dynamic accounting server, a first identifier creating the sub-realm, the "
+        "discovered server giving up (its hold-down ends while the other keeps the sub-realm), then a second identifier: same realm, other letter case, several '@' with shell text "
+        "before the suffix, the sub-realm's text as a proper suffix, other realms, unacceptable realm parts")
 EXHAUSTIVE = {"quick": ["every octet value 1..255 at first/middle/last position of the realm part"], "thorough": ["every octet value 1..255 at first/middle/last position of the realm part, x 3 command forms"]}
 ASSUMPTIONS = ["the C locale (radsecproxy never calls setlocale): isalnum is the ASCII test", "the User-Name reaches findserver as a C string (octets after an embedded NUL are not seen)"]
 LEVEL_TEXT = ("Lean 4 theorems, for every identifier: a lookup starts iff the text after the last '@' is non-empty and all of its octets are ASCII letters, digits, '.' or '-' "
               "(dynRealmOf_some_iff, dynRealmOf_sanitised); the external command gets argv = [command, realm] (exec_argv), naptr: asks for exactly the realm and srv: for prefix + one dot + "
-              "realm (dns_names); no accepted realm, no lookup. Tied to the code by running the real path with recorders for execlp and res_nquery, exhaustively over the octet values.")
-LEVEL_NOTE = "Trusted: Lean kernel + std axioms; harness recorders (execlp macro, canned resolver); generators. Modelled: adddynamicrealmserver's extraction/check, dynamicconfig's dispatch and name construction."
+              "realm (dns_names); no accepted realm, no lookup; the restart path of findserver (a sub-realm whose discovered server gave up) hands the lookup the sub-realm's own "
+              "sanitised text, which is — up to letter case — the text after the LAST '@' of the identifier that restarted it (refind_restart, refind_sanitised, refind_restart_last_realm). Tied to the code by running the real path with recorders for execlp and res_nquery, exhaustively over the octet values.")
+LEVEL_NOTE = "Trusted: Lean kernel + std axioms; harness recorders (execlp macro, canned resolver); generators. Modelled: adddynamicrealmserver's extraction/check, dynamicconfig's dispatch and name construction, findserver's restart branch (the sub-realm expression as a caseless suffix test; the thread schedule in which a failing discovery has finished before findserver goes on)."
 TECHNIQUE = "Lean 4 proof (induction over the identifier) + exhaustive-per-octet differential runs of the real lookup path with recorded exec/DNS side effects"
 DESIGN_REF = "§5 C20"
 
@@ -47,6 +51,31 @@ def gen(rng, tier):
         if rng.random() < 0.5:
             s = s[: n // 2] + b"@" + s[n // 2:]
         cs.append(Case("dynrealm %s %s" % (hx(rng.choice(CMDS)), hx(s[:253])), kind="random", rejected=int(not s.split(b"@")[-1].replace(b".", b"").replace(b"-", b"").isalnum())))
+    # the restart path of findserver: an existing sub-realm whose discovered server gave up is asked again
+    realms1 = [b"example.org", b"Example.ORG", b"a.b-c.D9", b"x", b"0", b"-", b"a..b", b"sub.example.org", b"a" * 60]
+    for _ in range(500 if tier == "quick" else 12000):
+        r1 = rng.choice(realms1)
+        id1 = rng.choice([b"user@", b"a@b@", b"@", b"u\x01@"]) + r1
+        style = rng.randrange(8)
+        if style == 0:
+            id2 = rng.choice([b"other@", b"@", b"x@y@"]) + r1
+        elif style == 1:      # same realm in other letter case
+            id2 = b"user@" + bytes(c ^ 0x20 if chr(c).isalpha() and rng.random() < 0.5 else c for c in r1)
+        elif style == 2:      # several '@' with shell text in front of the sub-realm's suffix
+            id2 = rng.choice([b"bob@gw;id@", b"a@$(id)@", b"a@b c@", b"x@../@", b"@@", b"a@\xc3\xa9@"]) + r1
+        elif style == 3:      # the sub-realm's text only as a proper suffix of the realm part (must NOT be taken for it)
+            id2 = b"user@" + rng.choice([b"x", b"evil.", b"a-", b"9"]) + r1
+        elif style == 4:      # another acceptable realm
+            id2 = b"user@" + rng.choice([b"other.net", b"example.org.", b"example.or", b"b.example.org"])
+        elif style == 5:      # unacceptable realm part
+            id2 = b"user@" + rng.choice([b"a b", b"x;y", b"", b"\xc3\xa9.fr", b"a/b", b"$(id)"])
+        elif style == 6:
+            id2 = r1          # no '@' at all
+        else:
+            id2 = bytes(rng.choice(b"ab@.-;") for _ in range(rng.randrange(1, 12))) + b"@" + r1
+        if rng.random() < 0.15:   # phase 1 itself not acceptable: phase 2 is a first lookup
+            id1 = b"user@" + rng.choice([b"bad realm", b"", b"x;y"])
+        cs.append(Case("dynfind %s %s %s" % (hx(rng.choice(CMDS)), hx(id1), hx(id2)), kind="refind-%d" % style, rejected=int(style in (2, 3, 5))))
     return cs
 
 
